@@ -309,6 +309,14 @@ func evalCase0(cs Case) (class, msg string) {
 			}
 			snaps = append(snaps, &snapshot{name: name, at: at, read: read, was: read()})
 		}
+		// takeLazy: a second value taken at the same moment as one that was just read, itself left unread until
+		// later operations have happened: whenever it is first consumed, it shows the moment it was taken at
+		takeLazy := func(at int, name string, read func() string) {
+			if !withSnaps || len(snaps) == 0 {
+				return
+			}
+			snaps = append(snaps, &snapshot{name: name + " (first read only after later operations)", at: at, read: read, was: snaps[len(snaps)-1].was})
+		}
 		recheck := func(after string) bool {
 			for _, s := range snaps {
 				if now := s.read(); now != s.was {
@@ -319,8 +327,9 @@ func evalCase0(cs Case) (class, msg string) {
 			return true
 		}
 		takeRouterSnaps := func(at int) {
-			it := f.Iter()
+			it, it2 := f.Iter(), f.Iter()
 			take(at, "Router.Iter()", func() string { return obsIter(it) })
+			takeLazy(at, "Router.Iter()", func() string { return obsIter(it2) })
 			ro := f.Txn(false)
 			take(at, "Router.Txn(false)", func() string { return obsTxn(ro) })
 		}
@@ -362,11 +371,13 @@ func evalCase0(cs Case) (class, msg string) {
 				if withSnaps && i == cs.SnapPos {
 					switch cs.SnapKind {
 					case snapTxnSnapshot:
-						s := txn.Snapshot()
+						s, s2 := txn.Snapshot(), txn.Snapshot()
 						take(i, "Txn.Snapshot()", func() string { return obsTxn(s) })
+						takeLazy(i, "Txn.Snapshot()", func() string { return obsTxn(s2) })
 					case snapTxnIter:
-						it := txn.Iter()
+						it, it2 := txn.Iter(), txn.Iter()
 						take(i, "Txn.Iter() of the write transaction", func() string { return obsIter(it) })
+						takeLazy(i, "Txn.Iter() of the write transaction", func() string { return obsIter(it2) })
 					}
 				}
 				if i == len(cs.Ops) {
